@@ -9,6 +9,8 @@ CONSTANTS
   MaxCondAtoms = 2
   Bug = "none"
   Fixed = {}
+  EmitMod = 1
+  EmitRes = 0
 INVARIANT ArgumentKindsFollowSpec
 INVARIANT EvalFollowsSpec
 INVARIANT EmitDone
